@@ -28,7 +28,11 @@ def gen_files():
     # source by the C19 translator; C01_subscript_* are stated over it (composition with C19)
     from translate import ops as tr_ops
 
-    return {"Ops.v": tr_ops.translate(str(lib.REPO))}
+    # Gen/NarrowTable.v: the class table of the C02 model (dumped from the running implementation by the
+    # C02 translator); the C02 proofs that C01_narrowing_keeps_value_from_C02 rests on are checked over it
+    from translate import narrowtable
+
+    return {"Ops.v": tr_ops.translate(str(lib.REPO)), "NarrowTable.v": narrowtable.translate(str(lib.REPO))}
 
 
 def run_impl(payload, timeout=1500):
